@@ -207,6 +207,7 @@ func checkC13(c *Ctx) {
 	c13CtxFuncs(c)
 	c13Filters(c)
 	c13Inject(c, reach)
+	dispatchOwnContext(c, "R-own-session")
 }
 
 // ctxRoot2 extends ctxRoot with the request root (r.Context()).
@@ -610,6 +611,20 @@ func dispatchOwnContext(c *Ctx, rule string) {
 			if !ok || !c.isDispatchCall(call) {
 				return
 			}
+			// the session the request runs on is obtained for this request — looked up by its id, or created — never a
+			// session object kept in a member of the (long-lived) transport handler, which every request would share
+			if sessI := c.P.RootNamed("Session"); sessI != nil {
+				iface := sessI.Underlying().(*types.Interface)
+				for _, a := range call.Call.Args {
+					if !types.Identical(a.Type(), sessI) && !(types.Implements(a.Type(), iface) && !types.IsInterface(a.Type())) {
+						continue
+					}
+					if bad := sharedSessionOrigin(c, fn, a, 0, map[ssa.Value]bool{}); bad != "" {
+						c.R.Violate(rule, sprintf("session of the dispatch in %s", fname(fn)), c.Pos(call.Pos()),
+							sprintf("%s dispatches the request on a session taken from %s — an object that lives as long as the server and is handed to every request: what one request stores in its session is seen (and overwritten) by the requests of other clients", fname(fn), bad))
+					}
+				}
+			}
 			for _, a := range call.Call.Args {
 				if ir.TypeStr(a.Type()) != "context.Context" {
 					continue
@@ -622,4 +637,74 @@ func dispatchOwnContext(c *Ctx, rule string) {
 		})
 	}
 	c.R.Min(rule, 3)
+}
+
+// sharedSessionOrigin: "" when every origin of the session value is a call result (lookup by id, creation), a table
+// lookup or nil; otherwise a description of the long-lived member it is loaded from.
+func sharedSessionOrigin(c *Ctx, fn *ssa.Function, v ssa.Value, d int, seen map[ssa.Value]bool) string {
+	if v == nil || d > 4 || seen[v] {
+		return ""
+	}
+	seen[v] = true
+	switch x := v.(type) {
+	case *ssa.MakeInterface:
+		return sharedSessionOrigin(c, fn, x.X, d, seen)
+	case *ssa.ChangeInterface:
+		return sharedSessionOrigin(c, fn, x.X, d, seen)
+	case *ssa.TypeAssert:
+		return sharedSessionOrigin(c, fn, x.X, d, seen)
+	case *ssa.Extract:
+		if _, isCall := x.Tuple.(*ssa.Call); isCall {
+			return ""
+		}
+		return sharedSessionOrigin(c, fn, x.Tuple, d, seen)
+	case *ssa.Phi:
+		for _, e := range x.Edges {
+			if bad := sharedSessionOrigin(c, fn, e, d, seen); bad != "" {
+				return bad
+			}
+		}
+	case *ssa.UnOp:
+		if x.Op != token.MUL {
+			return ""
+		}
+		if al, ok := x.X.(*ssa.Alloc); ok {
+			for _, r := range *al.Referrers() {
+				if st, ok := r.(*ssa.Store); ok && st.Addr == ssa.Value(al) {
+					if bad := sharedSessionOrigin(c, fn, st.Val, d, seen); bad != "" {
+						return bad
+					}
+				}
+			}
+			return ""
+		}
+		if fa, ok := x.X.(*ssa.FieldAddr); ok {
+			if key, _, _, base := ir.FullField(fa); key != "" && !ir.BaseAlloc(base) {
+				return "the member " + key
+			}
+		}
+	case *ssa.Parameter:
+		idx := -1
+		for i, p := range fn.Params {
+			if p == x {
+				idx = i
+			}
+		}
+		for _, e := range ir.Callers(c.G, fn) {
+			if e.Site == nil || !c.P.IsLib(e.Caller.Func) {
+				continue
+			}
+			args := e.Site.Common().Args
+			off := 0
+			if e.Site.Common().IsInvoke() {
+				off = 1
+			}
+			if idx-off >= 0 && idx-off < len(args) {
+				if bad := sharedSessionOrigin(c, e.Caller.Func, args[idx-off], d+1, seen); bad != "" {
+					return bad
+				}
+			}
+		}
+	}
+	return ""
 }
